@@ -98,7 +98,7 @@ def main():
         for t in r['trusted']:
             trusted.add('verus unit %s: %s' % (unit, t))
         functions += [dict(unit=unit, **f) for f in r['functions']]
-        if r['status'] == 'undecided':
+        if r['status'] == 'undecided' and not r.get('inconclusive_only'):
             undecided.append('verus unit %s: %s' % (unit, r['errors'][-1500:]))
         only = spec.get('verus_only', {}).get(unit)
         for o in r['obligations']:
